@@ -17,6 +17,7 @@ func init() {
 		Explanation: "Decided (structural necessary conditions, packages fsloop and jobsync, all paths): R1 the OnDir/OnFile callbacks are invoked only inside Consumer.Loop (never by a producer); R2 consumer goroutines are started only in a loop bounded by the amount the consumer pool granted, the pool's capacity derives from the configured consumer count, and Pool.Add grants at most max-counter; R3 Consumer.Loop defers pool.Done before its first callback and Loop.Wait reaches consumerPool.Wait on every path; producer goroutines are started only on the granted edge of Add(1) and defer Done first; R4 the error result of every OnDir/OnFile/ReadDir call in fsloop reaches Lifecycle.Error on every path of its non-nil edge; R5 the completion goroutine waits for the producer pool, then announces the close step, then closes the queues, and every queue send happens synchronously inside a producer (before its deferred Done); R6 a consumer return justified by the close step observes both queues empty with the length reads made after the step read on that path; R7 Pool.counter, Lifecycle.errors (writes) and Lifecycle.step are accessed under their mutex. " +
 			"R8 the walkers look at an entry's name only to recognise '.' and '..' (no other selection by name) and leave a listing loop early only with a non-nil error: every selected node is handed on; R9 inside the producers every send on the directory queue, every listing of a sub-directory and every producer started for one is made only where DirFilter is unset or accepted that directory, and every send on the file queue only where FileFilter is unset or accepted the file (judged in the function itself or, for a helper, at all its call sites): nothing below a rejected directory is visited. " +
 			"Added in round 4: R4 also requires that jobsync.Lifecycle.Error appends every argument to the error list on every path (no error kind is filtered out on its way into the list); R7 accepts a field that is touched only through sync/atomic (a mix of atomic and plain accesses is still flagged). " +
+			"Added in round 5: R4 also requires that Loop.Errors returns Lifecycle.Errors() itself (nothing is filtered on the way out). " +
 			"NOT decided: exactly-once delivery under all schedules (R1-R7 are its necessary shape; the interleaving argument itself is a model-checking job), callback concurrency measured at run time.",
 	})
 }
